@@ -30,7 +30,8 @@ def check(run: Run) -> None:
     run.rule("Q1", "non-vector input -> TypeError before splitting; unknown not among the terms -> ValueError before the result; Eq input -> lhs - rhs")
     run.rule("Q2", "apply wraps both sides with the same function")
     run.rule("Q3", "returned equation satisfies lhs - rhs = expr/scale (reduce_factor) or -expr, for every length and position of the unknown")
-    run.rule("Q4", "solve_for_scalar returns Eq(symbol, its solution) for every solved symbol")
+    run.rule("Q4", "solve_for_scalar returns Eq(symbol, its solution) for every solved symbol and never disables SymPy's verification of solutions")
+    run.rule("Q5", "is_vector_expr refuses a product of two or more vectors (so solve_for_vector refuses it)")
     w = World(run.src)
     mod = run.src.need(MOD)
     f = Fn(w, MOD, "solve_for_vector")
@@ -146,3 +147,34 @@ def check(run: Run) -> None:
             ok = any(c.endswith("sym_solve") or c == "solve" for c in sl.calls) and {"f", "symbol"} <= sl.params
         if not ok:
             run.violate("Q4", f"{MOD}:solve_for_scalar", g.mod, r.ast, "solve_for_scalar does not return [Eq(symbol, solution) for symbol, solution in solve(f, symbol, dict=True)[0].items()]")
+    run.ob("Q4", "solutions-are-verified")
+    for x in ast.walk(g.fn):
+        bad = None
+        if isinstance(x, ast.keyword) and x.arg == "check" and isinstance(x.value, ast.Constant) and x.value.value is False:
+            bad = x.value
+        if isinstance(x, ast.Call) and isinstance(x.func, ast.Attribute) and x.func.attr in ("setdefault", "update", "__setitem__") and x.args \
+                and isinstance(x.args[0], ast.Constant) and x.args[0].value == "check":
+            bad = x
+        if isinstance(x, ast.Assign) and any(isinstance(t, ast.Subscript) and isinstance(t.slice, ast.Constant) and t.slice.value == "check" for t in x.targets) \
+                and isinstance(x.value, ast.Constant) and x.value.value is False:
+            bad = x
+        if bad is not None:
+            run.violate("Q4", f"{MOD}:solve_for_scalar:check-disabled", g.mod, bad,
+                        "solve_for_scalar switches off sympy.solve's verification of candidate solutions (check=False): extraneous roots are returned as solutions")
+    # ---- Q5
+    vm = run.src.need("symplyphysics.core.experimental.vectors")
+    ive = next((s_ for s_ in vm.tree.body if isinstance(s_, ast.FunctionDef) and s_.name == "is_vector_expr"), None)
+    run.require(ive is not None, "is_vector_expr not found")
+    run.ob("Q5", "product-of-vectors-refused")
+    mul_if = next((s_ for s_ in ive.body if isinstance(s_, ast.If) and isinstance(s_.test, ast.Call) and dotted(s_.test.func) == "isinstance" and dotted(s_.test.args[1]) in ("SymMul", "Mul")), None)
+    good = False
+    if mul_if is not None:
+        raises = [x for x in ast.walk(mul_if) if isinstance(x, ast.Raise)]
+        loops = [x for x in ast.walk(mul_if) if isinstance(x, ast.For) and dotted(x.iter) == f"{dotted(mul_if.test.args[0])}.args"]
+        early_true = any(isinstance(x, ast.Return) and isinstance(x.value, ast.Constant) and x.value.value is True for lp in loops for s_ in lp.body for x in ast.walk(s_))
+        counted = any(isinstance(x, ast.AugAssign) and isinstance(x.op, ast.Add) for lp in loops for s_ in lp.body for x in ast.walk(s_))
+        good = bool(raises) and bool(loops) and counted and not early_true
+    if not good:
+        run.violate("Q5", "symplyphysics.core.experimental.vectors:is_vector_expr:product", vm, ive,
+                    "is_vector_expr no longer counts the vector factors of a product over all its arguments and raises for two or more: a*b*x passes as a vector expression "
+                    "and solve_for_vector rearranges it")
